@@ -19,7 +19,7 @@ OPTS = {"quick": {"kernel_budget": 700, "timeout": 45}, "thorough": {"kernel_bud
 OUT2 = Arg("out", "i32", "arr", n=2, out=True, init="uninit")
 
 
-def mk(name, T, F, family, K):
+def mk(name, T, F, family, K, ndebug=False):
     D = bits(T) - 1
     body = ("    cnl::fraction<%s> f(x);\n    out[0] = f.numerator; out[1] = f.denominator;\n    return 0;" % cpp(T))
     hi = tmax(T)
@@ -76,7 +76,7 @@ def mk(name, T, F, family, K):
             cl.append(("accuracy-bound", z3.fpLT(err, z3.fpMul(fpx.RNE, tol, dw))))
         return cl
     return Kernel(name, [("x", F), OUT2], "i32", body, mode="bv", W=40, pre=pre, claims=claims, unwind=K, max_paths=4000, prune_timeout_ms=20000,
-                  terminates=(family == "quarters"), desc="fraction<%s>(%s) %s inputs, K=%d" % (T, F, family, K), tags={"T": T, "F": F, "family": family, "K": K})
+                  terminates=(family == "quarters"), ndebug=ndebug, desc="fraction<%s>(%s) %s inputs, K=%d%s" % (T, F, family, K, " (NDEBUG)" if ndebug else ""), tags={"T": T, "F": F, "family": family, "K": K})
 
 
 def kernels(opts):
@@ -85,6 +85,7 @@ def kernels(opts):
           mk("K3", "i8", "f32", "fractional", 2 if tier == "quick" else 4), mk("Q0", "i8", "f32", "quarters", 3)]
     if os.environ.get("VERIF_C17_TINY"):
         ks.append(mk("T0", "i8", "f32", "tiny", 5))
+        ks.append(mk("T1", "i8", "f32", "tiny", 6, ndebug=True))
     if tier != "quick":
         # (int32 from double: the only place where numerator + 1 is not promoted; ~1-6 min depending on load: thorough)
         ks.append(mk("K5", "i32", "f64", "integer", 3))
